@@ -227,6 +227,8 @@ type Schema struct {
 	RootDirs []DirUse          `json:"root_dirs,omitempty"`
 	// ExtRoots: operation roots added to an implicit schema (Roots == nil) with 'extend schema {...}'
 	ExtRoots map[string]string `json:"ext_roots,omitempty"`
+	// ExtRootDirs: directive uses an implicit schema (Roots == nil) is given with 'extend schema @d {...}'
+	ExtRootDirs []DirUse `json:"ext_root_dirs,omitempty"`
 }
 
 func (s *Schema) Type(name string) *TypeDef {
@@ -560,11 +562,11 @@ func (s *Schema) SDL(o SDLOpts) string {
 
 // ExtRootsSDL renders the extension of the implicit schema ("" when there is none).
 func (s *Schema) ExtRootsSDL() string {
-	if len(s.ExtRoots) == 0 {
+	if len(s.ExtRoots) == 0 && len(s.ExtRootDirs) == 0 {
 		return ""
 	}
 	var b strings.Builder
-	b.WriteString("extend schema {\n")
+	b.WriteString("extend schema" + dirsSDL(s.ExtRootDirs) + " {\n")
 	for _, op := range []string{"query", "mutation", "subscription"} {
 		if n := s.ExtRoots[op]; n != "" {
 			b.WriteString("  " + op + ": " + n + "\n")
